@@ -4,6 +4,7 @@
 -/
 import CM.Driver.Codec
 import CM.Model.Bag
+import CM.Proofs.Check
 open Lean
 namespace CM
 
@@ -130,6 +131,41 @@ def opBag (j : Json) : P Json := do
       | .ok av =>
         pure (Json.mkObj [("fields", .arr ((names av).map Json.str).toArray),
           ("get", .arr (ns.map fun n => fieldResToJson (b.getNode av n)).toArray)])
+    | "call" =>
+      -- the whole way in the model: validate, get_node, compile to a graph, run the VM on it
+      let b ← bagOfJson (← jField st "bag")
+      let name ← (← jField st "name").getStr?
+      let env ← envOfJson (jFieldD st "env" (Json.mkObj []))
+      let stores ← (← jArr (jFieldD st "stores" (.arr #[]))).mapM fun s =>
+        match s with
+        | .null => pure ({ size := none, table := [] } : MemStore)
+        | s => do pure ({ size := some (← s.getNat?), table := [] } : MemStore)
+      match b.validate with
+      | .error e => pure (Json.mkObj [("err", compileErrToJson e)])
+      | .ok av =>
+        match b.getNode av name with
+        | .node o | .virtualInput (some o) =>
+          let g := b.compileGraph o
+          if !g.validate then pure (Json.mkObj [("err", .str "AssertionError"), ("graph_ok", .bool g.okCB)])
+          else
+            let impureFns ← jStrs (jFieldD st "impure" (.arr #[]))
+            let constFns ← (← jArr (jFieldD st "const_fns" (.arr #[]))).mapM fun r => do
+              match ← jArr r with
+              | [n, v] => pure ((← n.getStr?), (← valOfJson v))
+              | _ => throw "bad const_fns"
+            let w : World := { stores := stores, impureFns := impureFns, constFns := constFns }
+            match g.call env w 10000000 with
+            | none => throw "out of fuel"
+            | some (out, _) =>
+              let r : Json := match out with
+                | .done (.val v) _ => Json.mkObj [("ok", valToJson v)]
+                | .done _ _ => Json.mkObj [("err", .str "internal")]
+                | .raised e _ => Json.mkObj [("err", errToJson e)]
+                | .next _ => Json.mkObj [("err", .str "internal")]
+              pure (Json.mkObj [("r", r), ("sig", toJson g.signature), ("graph_ok", .bool g.okCB),
+                ("call_ok", .bool (g.callOKB env)), ("nodes", toJson g.nodes.length)])
+        | .virtualInput none => pure (Json.mkObj [("identity", .bool true)])
+        | .discarded | .undefined => pure (Json.mkObj [("err", .str "FieldError")])
     | _ => throw s!"unknown bag step {t}"
   pure (Json.mkObj [("outs", .arr outs.toArray)])
 
